@@ -73,6 +73,10 @@ type Oracle interface {
 type SeedState struct {
 	Name string
 	W    *world.World
+	// Legs are the executions that built the seed (the oracles are applied to them too); Failed is
+	// non-empty when a construction step that has to succeed did not.
+	Legs   []*world.Leg
+	Failed string
 }
 
 // Profile describes one search.
@@ -146,6 +150,7 @@ type Result struct {
 	PerDepthStates []int64
 	Samples        [][]string
 	Wall           time.Duration
+	SeedFailures   []string
 }
 
 type visited struct {
@@ -196,6 +201,24 @@ func Run(p *Profile) (*Result, error) {
 	vis := newVisited()
 	var frontier []*node
 	for _, s := range p.Seeds(envs[0]) {
+		{
+			c := ctxs[0]
+			c.node, c.act = &node{seed: s.Name + " (construction)"}, nil
+			for _, l := range s.Legs {
+				for _, o := range p.Oracles {
+					o.Leg(c, l)
+				}
+				if l.Post != nil && l.Post != l.Pre {
+					for _, o := range p.Oracles {
+						o.State(c, l.Post)
+					}
+				}
+			}
+		}
+		if s.Failed != "" {
+			res.SeedFailures = append(res.SeedFailures, s.Name+": "+s.Failed)
+			continue
+		}
 		n := &node{seed: s.Name, w: s.W, h: s.W.Hash(p.WithGhost)}
 		if vis.add(n.h) {
 			frontier = append(frontier, n)
